@@ -272,7 +272,9 @@ func applyAlias(node *CandidateNode, alias *CandidateNode, aliasIndex int, newCo
 			}
 			continue
 		}
-		err := overrideEntry(node, keyNode, valueNode, aliasIndex, newContent)
+		// the entries of the merged map belong to the anchored map: explode copies of them,
+		// not the anchored map's own nodes
+		err := overrideEntry(node, keyNode.Copy(), valueNode.Copy(), aliasIndex, newContent)
 		if err != nil {
 			return err
 		}
